@@ -61,6 +61,16 @@ def is_effect(c):
     return t.startswith(EFFECT_PREFIXES) and t not in NOT_EFFECTS
 
 
+def converts_failure_of(u, raise_call, effect_call):
+    """accepted idiom: the rejection sits in an `except` handler of the try whose body holds the effect call, i.e. it
+    converts the refusal raised BY the callee (which then did not act) into the documented fault."""
+    for t in own_nodes(u.node):
+        if isinstance(t, ast.Try) and any(x is effect_call for s in t.body for x in ast.walk(s)):
+            if any(x is raise_call for h in t.handlers for s in h.body for x in ast.walk(s)):
+                return True
+    return False
+
+
 def validates_param(u, call):
     """the validator is applied to a parameter of the method (not to a name derived later)."""
     params = {a.arg for a in u.node.args.args[1:]}
@@ -175,7 +185,8 @@ def run(P, R):
         for c in calls:
             t = call_text(c)
             if t == 'self._raise' and c.args and fault_code(c.args[0]) in REJECTIONS and \
-                    (c.lineno, c.col_offset) > (first_eff.lineno, first_eff.col_offset):
+                    (c.lineno, c.col_offset) > (first_eff.lineno, first_eff.col_offset) and \
+                    not converts_failure_of(u, c, first_eff):
                 late.append(('rejection %s' % fault_code(c.args[0]), c))
             if t.startswith('self.') and t[5:] in VALIDATORS and validates_param(u, c) and \
                     (c.lineno, c.col_offset) > (first_eff.lineno, first_eff.col_offset):
@@ -206,13 +217,14 @@ def run(P, R):
         R.check(r2, total, '%s never falls through' % v, 'validator-total|%s' % v, u.loc(),
                 'RPCInterface.%s has a path that returns None implicitly instead of raising' % v)
     # NOT_MANAGED and the program-name test
-    for name in ('start_application', 'test_start_application', 'stop_application'):
+    for name in ('start_application', 'test_start_application', 'stop_application', 'restart_application'):
         u = P.unit('RPCInterface.' + name)
         fm = factmap(u)
         rs = [c for c in own_nodes(u.node) if isinstance(c, ast.Call) and call_text(c) == 'self._raise' and c.args
               and fault_code(c.args[0]) == 'NOT_MANAGED']
-        ok = len(rs) == 1 and any(f[1] and f[0] == 'application_name not in self.supvisors.context.'
-                                  'get_managed_applications()' for f in fm.at(rs[0]))
+        ok = len(rs) == 1 and any((f[1] and f[0] == 'application_name not in self.supvisors.context.'
+                                   'get_managed_applications()') or (not f[1] and f[0] == 'application.rules.managed')
+                                  for f in fm.at(rs[0]))
         R.check(r2, ok, '%s rejects unmanaged applications' % name, 'not-managed|%s' % name, u.loc(),
                 'RPCInterface.%s does not raise NOT_MANAGED exactly when the application is not managed' % name)
     for name in ('update_numprocs', 'enable', 'disable'):
